@@ -4,6 +4,7 @@
 package main
 
 import (
+	"bytes"
 	"encoding/hex"
 	"fmt"
 	"os"
@@ -158,6 +159,19 @@ func main() {
 				LeakEnd()
 			}
 			sink = int(b) + int(c)
+		case "signhashed": // the signing entry point itself: secret = d, public = e (32) || nonce stream (32 per candidate)
+			rd := bytes.NewReader(public[32:])
+			if mark {
+				LeakBegin()
+			}
+			r, _, err := sm2.SignHashed(rd, sec, public[:32])
+			if mark {
+				LeakEnd()
+			}
+			if err != nil {
+				os.Exit(3)
+			}
+			sinkB = r
 		case "ptbytes": // safe affine conversion of a point with a secret-dependent Z
 			g := internal.NewSM2Generator()
 			p, _ := internal.ScalarMult(g, sec)
